@@ -91,14 +91,6 @@ Definition name_node (i : tree) (n : string) : Prop :=
 Definition stmt_hole (i : tree) (n : string) : Prop :=
   t_kind i = "Expr" /\ exists v rest, t_kids i = v :: rest /\ t_kind v = "Name" /\ fld_str "id" (t_flds v) = Some n.
 
-Definition is_stmt_hole (i : tree) : bool :=
-  String.eqb (t_kind i) "Expr" &&
-  match t_kids i with
-  | v :: _ => String.eqb (t_kind v) "Name" &&
-              match fld_str "id" (t_flds v) with Some n => is_exp n || is_wild n | None => false end
-  | [] => false
-  end.
-
 Definition field_rel (i t : tree) : Prop := t_field i = t_field t \/ t_field i = NONE_FIELD.
 
 Section Derivation.
